@@ -421,7 +421,8 @@ def make_field(B, sd, node, tag):
 
 def _schema_validator(B, vid, tag):
     def check(cfg):
-        B.vlog.append(("schema", tag, None))
+        from .snapshot import snap
+        B.vlog.append(("schema", tag, snap(cfg, None, False)))
         if vid == "fault":
             _callback_fault(B)
         if vid == "pred":
